@@ -31,3 +31,8 @@ def obligations(tier):
     obs += lex_obs("C02", "c_kw", ["col_later", "col_after_sized"], tier, "lex")
     obs += lex_obs("C02", "c_name", ["pk_list_first", "pk_list_later", "uniq_list_first", "fk_list_first", "ref_list_first"], tier, "lexname")
     return obs
+
+
+def solver_queries(tier, scratch):
+    from vf import lr_lemmas
+    return lr_lemmas.run_lemmas("C02", tier, scratch, timeout=1500)
